@@ -21,7 +21,7 @@ def cfg_full(tier, seed):
     out = []
     for Nr, Nc in itertools.product(range(1, top + 1), repeat=2):
         for os in (1, 2, 3):
-            if Nr % os or Nc % os:
+            if (Nr % os or Nc % os) and not (Nr >= 2 and Nc >= 2 and Nr * Nc <= 12):
                 continue
             for nr, nc in {(min(ptop, Nr), min(ptop, Nc)), (max(1, min(ptop, Nr) - 1), min(ptop, Nc)), (1, min(2, Nc))}:
                 if tier == 'quick' and (Nr * Nc > 16 and (nr * nc > 6)):
@@ -29,6 +29,8 @@ def cfg_full(tier, seed):
                 for method in ('dft', 'fft', 'fft-scratch'):
                     if method != 'dft' and (Nr < 2 or Nc < 2):
                         continue
+                    if (Nr % os or Nc % os) and method == 'dft':
+                        continue            # the DFT propagator's output shape is shape*oversample: a full period needs N divisible by it
                     out.append({'N': [Nr, Nc], 'n': [nr, nc], 'os': os, 'method': method})
     return out, len(out), True
 
@@ -56,6 +58,8 @@ def run_full(W, cfg):
     Nr, Nc = cfg['N']
     os = cfg['os']
     shape = (Nr // os, Nc // os)
+    if Nr % os or Nc % os:
+        shape = None                        # FFT propagators: the default output is the full grid, whatever the oversampling
     if cfg['method'] == 'dft':
         o = lt.propagate_dft(w, pixelscale=du, shape=shape, oversample=os)
     elif cfg['method'] == 'fft':
